@@ -145,4 +145,8 @@ Definition csv_table_ok (t : table) (terminal : list string) : bool :=
     (post_states t)
   && forallb (fun s => implb (spend_state t s && negb (csv_spend_state t s))
                         (match next_state t s Ev_Failed with Some b => waiting_state t b | None => false end))
+             (post_states t)
+  (* after a restart the action of every unfinished state after the broadcast is run again (no FailOnrecover) *)
+  && forallb (fun s => is_fin terminal s ||
+                       negb (match lookup_state t s with Some sd => st_fail_on_recover sd | None => true end))
              (post_states t).
